@@ -104,8 +104,11 @@ def plan(tier, seed):
     secs = 40 if tier == 'quick' else 620
     shards = []
     for kind, n in KINDS.items():
-        parts = {'big': 4}.get(kind, 2) if tier == 'quick' else \
-            {'big': 6, 'invalid': 1}.get(kind, 2)
+        # at most 16 shards: one wave of workers
+        parts = {'big': 2, 'variants': 1, 'invalid': 1, 'wrap': 1,
+                 'unwritable': 1}.get(kind, 2) if tier == 'quick' else \
+            {'big': 4, 'invalid': 1, 'variants': 1, 'wrap': 1,
+             'unwritable': 1}.get(kind, 2)
         if tier == 'thorough' and kind == 'big':
             n = 600                       # x13 = 7800 big programs
         for p, (f, c) in enumerate(split(n * mult, parts)):
@@ -358,15 +361,11 @@ def compare_desc(desc, exp, acc):
             out.append((f'{what}puts', f'{g} != {e}'))
             continue
         for (_, _, sc, _), (_, _, (kind, val), _) in zip(g, e):
-            if kind == 'num' and val != 0:
+            if kind == 'num':
                 acc.count('io_start_channels_checked')
                 if sc != val:
-                    out.append((f'{what}put-bus', f'{sc!r} != {val!r}'))
-            elif kind == 'num':
-                # bus 0: IODesc stores `starting_channel or '?'`; reported as
-                # an observation, the statement does not name the bus number
-                acc.count('observed_bus0_reported_as_%s' % (
-                    'unknown' if sc == '?' else 'zero'))
+                    out.append((f'{what}put-bus' + ('-zero' if val == 0 else ''),
+                                f'{sc!r} != {val!r}'))
             elif kind == 'name':
                 acc.count('io_start_channels_checked')
                 if sc != val:
@@ -713,8 +712,31 @@ def run_shard(spec, acc):
                 acc.count('invalid_build_failed_for_another_reason')
                 acc.case(sig, nontrivial=False)
             else:
+                # a valid program that does not compile: C01's statement, but
+                # the mc / wf / big / wrap / variants programs exist only here
                 acc.count('constructor_raised_for_valid_program')
-                acc.case(sig, nontrivial=False)
+                acc.case(sig, nontrivial=True)
+                tb, last = e.__traceback__, None
+                while tb is not None:
+                    last, tb = tb, tb.tb_next
+                sites = tb_sites(e)
+                site = ':'.join(sites[-1]) if sites else 'graph-function'
+                if last is not None and last.tb_frame.f_code.co_filename \
+                        .startswith('<program'):
+                    site = 'graph-function'
+                suffix = ''
+                msg = safe(str, e)
+                if prog.get('folding_agnostic') and prog.get('foldable_nodes') \
+                        and (isinstance(e, ZeroDivisionError) or 'rate' in msg
+                             or any(t in msg for t in ("'float'", "'int'",
+                                                       "'bool'"))):
+                    suffix = '/operand-folded-to-number'
+                acc.violation(
+                    f'C02/valid-program-rejected/{type(e).__name__}/{site}'
+                    + suffix,
+                    {'case': i, 'kind': kind,
+                     'error': safe(lambda: repr(e)[:300]),
+                     'script': gg.script(prog)[:6000], 'tb': safe(short_tb, e, 5)})
             continue
         try:
             raw = bytes(sd.as_bytes())
@@ -829,6 +851,9 @@ def run_shard(spec, acc):
                     problems.append((f'C02/reader/{what}', f'{how}: {detail}'))
         if invalid:
             what = kind.split(':')[1]
+            # what the library's reader makes of the bytes is judged for the
+            # valid programs; here: are the emitted bytes a sound definition
+            problems = [p for p in problems if not p[0].startswith('C02/reader')]
             if problems:
                 key, detail = problems[0]
                 acc.violation(f'C02/invalid-graph-emitted/{what}',
